@@ -14,7 +14,7 @@ txt = ["### 7.4 Seeded changes: which checks catch which changes",
        "Fresh sub-agents were given only the text of one property and a scratch worktree of `/repo`",
        "(nothing from `/verif`) and asked for changes that break the property, still compile and pass the",
        "pinned suite, and need something specific to manifest; from the second round on they were also",
-       "told which ideas had been used before (four rounds, two changes per property and round). Every change below was confirmed with `tools/seed_eval.sh`",
+       "told which ideas had been used before (five rounds, two changes per property and round). Every change below was confirmed with `tools/seed_eval.sh`",
        "in a scratch worktree (patch applies, 140/140 baseline tests pass with it, its demonstration fails",
        "with and passes without it) before it was kept under `/verif/seeded/<name>/` (patch.diff, the",
        "demonstration renamed to `*.go.txt`, README.md, meta.json). The checks were run against each",
@@ -36,6 +36,17 @@ txt += ["",
         "round-4 seeds (for C01 and C02: Marshal takes the V flag from the dictionary's must list) repeat",
         "`C18-D-v-flag-from-must-list` and are detected by C18 as that one is. Two round-4 seeds for C09 were",
         "written against `ServeMux.ServeDIAM` as it was before fix `dda5ec7` and were ported by hand.",
+        "",
+        "Two round-5 seeds were exact repeats (of `C15-D` and `C19-C`). Two seeds were written against code",
+        "that a later `fix:` commit restructured (`C07-J`, both C09 seeds of round 4) and were ported by hand.",
+        "",
+        "Not counted as violations, because the property does not decide the point (the checks stay",
+        "silent on them, by design): a client that treats every 2xxx Result-Code in the CEA as success (C12",
+        "says \"success CEA\" / \"failed result code\"; 2002 is neither clearly); a client that, after one",
+        "reported failure-coded DWA, takes further failure-coded DWAs as acknowledgements (C13 speaks of",
+        "success answers and of unanswered requests only - section 7.2); a client-role state machine that",
+        "processes a CER sent by the peer with a non-zero header application id and then runs handlers",
+        "(an exchange did succeed on that connection, in the other direction).",
         "",
         "Not counted as a violation, and therefore neither kept nor chased: a round-3 seed for C15 that",
         "suppresses the error report for a message whose *body is cut short by the peer's FIN* (`%w` in",
